@@ -290,6 +290,14 @@ def finalize(total: Result, tier, complete):
     en = total.sets.pop("enumerated", set())
     de = total.sets.pop("decided", set())
     total.counters["op_signature_points"] = len(en)
+    # neg4D of a tau-stored vector always has negative time: its exact result is never representable in tau storage, so
+    # the proviso of the property excludes every case of these six points
+    inherent = {k for k in en if k.startswith("neg4D|") and "_tau|" in k}
+    undecided = sorted(en - de - inherent)
+    total.counters["op_signature_points_never_decided"] = len(undecided)
+    if undecided and complete:
+        # vacuity guard: a change must not be able to hide by pushing every case of a signature outside the decidable domain
+        raise RuntimeError(f"vacuous: (operation, signature) points enumerated but never decided: {undecided[:12]}")
 
 
 def replay(case):
